@@ -284,6 +284,58 @@ def _concluded_writers() -> List[Tuple[str, str, str]]:
     return out
 
 
+def _execute_return(tree: ast.AST, cls_name: str) -> List[Tuple[str, str]]:
+    """The one `return "node-application-execute", {…}` of the class's get_action: key ↦ source expression."""
+    fn = find_method(class_def(tree, cls_name), "get_action")
+    hits = []
+    for n in ast.walk(fn):
+        if isinstance(n, ast.Return) and isinstance(n.value, ast.Tuple) and len(n.value.elts) == 2 and isinstance(n.value.elts[0], ast.Constant):
+            name, d = n.value.elts[0].value, n.value.elts[1]
+            if name == "do-nothing":
+                if not (isinstance(d, ast.Dict) and not d.keys):
+                    raise ValueError(f"{cls_name}.get_action: do-nothing with parameters")
+                continue
+            if name != "node-application-execute" or not isinstance(d, ast.Dict):
+                raise ValueError(f"{cls_name}.get_action returns {ast.unparse(n.value)}")
+            hits.append(_dict_items(d, f"{cls_name}.get_action"))
+        elif isinstance(n, ast.Return):
+            raise ValueError(f"{cls_name}.get_action: unrecognised return {ast.unparse(n)}")
+    if len(hits) != 1:
+        raise ValueError(f"{cls_name}.get_action: expected one node-application-execute return, found {len(hits)}")
+    return hits[0]
+
+
+def _start_node_body(tree: ast.AST) -> str:
+    fn = find_method(class_def(tree, "PeriodicAgent"), "start_node")
+    body = [st for st in fn.body if not (isinstance(st, ast.Expr) and isinstance(st.value, ast.Constant))]
+    if not (len(body) == 1 and isinstance(body[0], ast.Return)):
+        raise ValueError("PeriodicAgent.start_node: expected a single return")
+    if [ast.unparse(d) for d in fn.decorator_list] != ["computed_field", "cached_property"]:
+        raise ValueError("PeriodicAgent.start_node: expected @computed_field @cached_property")
+    return ast.unparse(body[0].value)
+
+
+def _tap3_knowledge(t3: ast.AST) -> List[str]:
+    """`TAP003.AgentSettingsSchema.check_network_knowledge_covers_targets` (settings validator): the possible start nodes,
+    the keys demanded of an account-change host, the keys demanded of an ACL router; and the knowledge entry
+    `_handle_change_password_response` writes after a LOCAL password change."""
+    settings = [c for c in ast.walk(class_def(t3, "TAP003")) if isinstance(c, ast.ClassDef) and c.name == "AgentSettingsSchema"][0]
+    fn = find_method(settings, "check_network_knowledge_covers_targets")
+    if [ast.unparse(d) for d in fn.decorator_list] != ["model_validator(mode='after')"]:
+        raise ValueError("check_network_knowledge_covers_targets is not an after-validator")
+    assigns = {ast.unparse(n.targets[0]): ast.unparse(n.value).replace('"', "'") for n in ast.walk(fn)
+               if isinstance(n, ast.Assign) and len(n.targets) == 1}
+    if not any(isinstance(n, ast.Raise) for n in ast.walk(fn)):
+        raise ValueError("check_network_knowledge_covers_targets never raises")
+    out = [assigns.get("start_nodes", "?"), assigns.get("keys", "?"), assigns.get("required[acl.target_router]", "?")]
+    h = find_method(class_def(t3, "TAP003"), "_handle_change_password_response")
+    local = [ast.unparse(n.value).replace('"', "'") for n in ast.walk(h) if isinstance(n, ast.Assign) and len(n.targets) == 1
+             and ast.unparse(n.targets[0]) == "self.network_knowledge['credentials'][hostname]"]
+    if len(local) != 2:
+        raise ValueError(f"_handle_change_password_response: expected two knowledge updates, found {len(local)}")
+    return out + [local[1]]
+
+
 def _lean_triples(xs) -> str:
     return "[" + ", ".join(f'("{a}", "{b}", "{c}")' for a, b, c in xs) + "]"
 
@@ -410,6 +462,13 @@ def tap3CurrentHost : List (String × String) := {_lean_spairs(_attr_assignments
 /-- `_select_start_node` (abstract_tap.py) / `_select_target_ip` (TAP001.py): test, then-branch, else-branch -/
 def selectStartNode : List String := {_lean_strs([x.replace('"', "'") for x in _select(t_abs, "AbstractTAP", "_select_start_node")])}
 def selectTargetIp : List String := {_lean_strs([x.replace('"', "'") for x in _select(t1, "TAP001", "_select_target_ip")])}
+/-- PeriodicAgent / DataManipulationAgent: the dictionary of the returned node-application-execute, the cached `start_node`, the default application -/
+def periodicActionParams : List (String × String) := {_lean_spairs(_execute_return(t_rand, "PeriodicAgent"))}
+def dmActionParams : List (String × String) := {_lean_spairs(_execute_return(t_dm, "DataManipulationAgent"))}
+def periodicStartNode : String := "{_start_node_body(t_rand)}"
+def dmDefaultApplication : String := "{_field_default([c for c in ast.walk(class_def(t_dm, "DataManipulationAgent")) if isinstance(c, ast.ClassDef) and c.name == "AgentSettingsSchema"][0], "target_application")}"
+/-- TAP003: settings validator (possible start nodes, keys of an account-change host, keys of an ACL router) and the entry written after a local password change -/
+def tap3Knowledge : List String := {_lean_strs(_tap3_knowledge(t3))}
 /-- every assignment to an attribute `actions_concluded` in a method under game/agent: (file, function, value) -/
 def concludedWriters : List (String × String × String) := {_lean_triples(_concluded_writers())}
 end Primaite.Gen.Agents
